@@ -1,4 +1,5 @@
 import NbdimeModel.MergeStrategies
+import NbdimeModel.WF
 /-
   `nbdime/merging/generic.py`: `_merge_dicts`, `_split_addrange`, `_merge_concurrent_inserts`,
   `_merge_lists`, `_merge_strings`, `_merge`, `decide_merge_with_diff`.
@@ -420,6 +421,23 @@ def disjF (S : Strategies) : Nat → Bool → J → List Op → List Op → List
       | _ => false
 
 def disjoint (S : Strategies) (base : J) (ld rd : List Op) : Bool := disjF S bigFuel false base ld rd []
+
+/-! ### "every root key is changed by one side only, or by both sides in the same way": decidable hypothesis of the
+    document-level theorems `C05_model_keywise_apply` / `C06_model_keywise`, evaluated by the driver -/
+
+def keywise (base : J) (ld rd : List Op) : Bool :=
+  match base with
+  | .obj _ => base.canonical && wf base ld && wf base rd &&
+      ld.all (fun el => rd.all (fun er => el.skey != er.skey || Op.beq el er))
+  | _ => false
+
+/-- the local diff and the remote entries under the other keys -/
+def keywiseUnion (ld rd : List Op) : List Op := ld ++ rd.filter (fun e => !(ld.map Op.skey).contains e.skey)
+
+/-- `apply_decisions(base, decide_merge_with_diff(...))` -/
+def mergeApply (E : Env) (base : J) (ld rd : List Op) : Except Err J := do
+  let ds ← decideMerge E base ld rd
+  applyDecisions base (ds.map MD.toDecision)
 
 end Merge
 end Nbdime
